@@ -107,6 +107,13 @@ class MaskedV:
         self.arr, self.mask = arr, mask      # ARef (values), ARef (bool)
 
 
+class ClsV:
+    """a class object (only its name matters: isinstance tests and constructor dispatch)"""
+
+    def __init__(self, name, bases=()):
+        self.name, self.bases = name, tuple(bases)
+
+
 class FuncV:
     """Callable model: fn(ex, st, args, kwargs, node) -> value."""
 
@@ -262,11 +269,10 @@ class Exec:
         self.spec_mode = 0
         self.entry = None
         self.loop_ids = {}
-        n = 0
-        for x in ast.walk(fn_node):
-            if isinstance(x, (ast.For, ast.While)):
-                self.loop_ids[id(x)] = n
-                n += 1
+        # loop ordinals follow source order (line, column), independent of nesting depth
+        loops = sorted((x for x in ast.walk(fn_node) if isinstance(x, (ast.For, ast.While))), key=lambda x: (x.lineno, x.col_offset))
+        for n, x in enumerate(loops):
+            self.loop_ids[id(x)] = n
         self.cover = []       # (name, pc) reachability queries
 
     # ------------------------------------------------------------------ helpers
